@@ -391,6 +391,7 @@ def pixel_units(ctx, src):
                new_header='static inline size_t Image_get_data_size(const Image* self)')
     u.write()
     p = Unit(ctx, 'pixel')
+    p.auto_helpers = True      # a bounds check factored out into a file-local helper is part of the verified text
     # cbmc 6.11 loses stores through `ptr->union_member.member[i]` (struct reached through a pointer, union of pointers written through another
     # member): `self->data.as16[i]` is read as `((uint16_t*)self->data.raw)[i]` -- every member of DataPtrs is a pointer to the same buffer
     AS = [Rule(r'\bself->data\.as(8|16|32|64)\[', r'((uint\1_t*)self->data.raw)[', regex=True, count='+')]
